@@ -102,6 +102,12 @@ func (c sessionCfg) text(sid, sauth string) string {
 		strings.Join(ops, ","), strings.Join(sv, ","), hexBytes([]byte(sid)), hexBytes([]byte(sauth)), nowMarker)
 }
 
+// causelessError: a typed error in the pkg/errors style whose Cause() is nil
+type causelessError struct{}
+
+func (causelessError) Error() string { return "credentials rejected" }
+func (causelessError) Cause() error  { return nil }
+
 // scriptedServer wires a kmip.Server to per-session scripts and logs
 type scriptedServer struct {
 	rejections int32
@@ -173,11 +179,13 @@ func newScriptedServer(cfg sessionCfg) *scriptedServer {
 			}
 			mc.event("ra", creds+":fail")
 			// the kind of error must not matter: plain, carrying a KMIP result reason (kmip.Error), wrapped
-			switch atomic.AddInt32(&ss.rejections, 1) % 3 {
+			switch atomic.AddInt32(&ss.rejections, 1) % 4 {
 			case 0:
 				return nil, reasonError{"request auth rejected", kmip.RESULT_REASON_AUTHENTICATION_NOT_SUCCESSFUL}
 			case 1:
 				return nil, fmt.Errorf("rejected: %w", reasonError{"inner", kmip.RESULT_REASON_PERMISSION_DENIED})
+			case 2:
+				return nil, causelessError{} // an error type with a Cause() method that has no underlying cause
 			}
 			return nil, errors.New("request auth rejected")
 		}
@@ -205,13 +213,30 @@ func newScriptedServer(cfg sessionCfg) *scriptedServer {
 				b = behaviour{kind: "S"}
 			}
 			ss.mu.Unlock()
+			// the item belongs to the handler once it has been called: some handlers wipe or rewrite it when they are done
+			// (the response must still carry the operation and the unique batch item id of the request)
+			wipe := len(b.msg)%3 == 1
+			defer func() {
+				if wipe {
+					*item = kmip.RequestBatchItem{Operation: kmip.OPERATION_QUERY, UniqueID: []byte("rewritten")}
+				}
+			}()
+			// a failing handler may return a first value as well - a typed nil (return backend.Get(id)) or a partly filled
+			// structure; only the error counts
+			var along interface{}
+			switch len(b.msg) % 4 {
+			case 2:
+				along = (*kmip.GetResponse)(nil)
+			case 3:
+				along = kmip.GetResponse{UniqueIdentifier: "partial"}
+			}
 			switch b.kind {
 			case "S":
 				return b.payload, nil
 			case "F":
-				return nil, errors.New(b.msg)
+				return along, errors.New(b.msg)
 			case "R":
-				return nil, reasonError{b.msg, b.reason}
+				return along, reasonError{b.msg, b.reason}
 			default:
 				panic(b.panicV)
 			}
